@@ -524,3 +524,6 @@ func runReplay(c *Check, path string) int {
 	}
 	return exit
 }
+
+// Trunc shortens s to n bytes.
+func Trunc(s string, n int) string { return trunc(s, n) }
